@@ -10,7 +10,7 @@ from kern2 import fr_tok
 from remesh import Mesh
 
 SPEC = {
-    "lean_modules": ["Honeycomb.Props.C15"],
+    "lean_modules": ["Honeycomb.Props.C15", "Honeycomb.Props.C15b"],
     "gen": ["anchors"],
     "required_theorems": [
         "C15_swap_preserves_WF", "C15_cutOuter_preserves_WF", "C15_cutInner_preserves_WF", "C15_collapse_preserves_WF",
@@ -25,6 +25,9 @@ SPEC = {
         # former findings D15b / D15c (fixed in /repo 27a7433 / aac3ec9): positive theorems
         "C15_cutOuter_second_half_anchored", "C15_cut_midpoint_under_vertex_id", "C15_cutOuter_unit_square_all_orders",
         "C15_cutInner_unit_square_orders",
+        # Props/C15b.lean: the core clause at beta level on arbitrary WF maps, cells, collapse side conditions
+        "C15_swap_topology", "C15_swap_faces_are_triangles", "C15_cutOuter_topology", "C15_cutInner_topology",
+        "C15_cutOuter_cells", "C15_cut_midpoint_in_final_map", "C15_collapse_midpoint_interior",
     ],
     "trusted_base": [
         "Lean 4.33 kernel; axioms propext, Classical.choice, Quot.sound only",
@@ -74,24 +77,26 @@ SPEC = {
             "removed triangle flagged and nothing left outside the mesh unflagged, one orientation around the new vertex; err / retry => map "
             "unchanged. distinct_nontrivial = distinct implementation transcripts.",
     "not_proved": [
-        "global V/E/F count changes and `all faces are triangles` after a successful call for arbitrary meshes: oracle only",
+        "global V/E/F count changes for arbitrary meshes: faces for cut_outer_edge are a theorem (C15_cutOuter_cells: iter_faces before/"
+        "after, one face replaced by two); vertex / edge counts, and iter_faces for swap / cut_inner / collapse: oracle only",
         "`all triangles around the resulting vertex have the same orientation` as a consequence of is_orbit_orientation_consistent on "
         "arbitrary fans: oracle only (the post-check itself is modelled and compared)",
-        "local topology after swap / cut for arbitrary surrounding maps (symbolic execution of the straight-line sequences): validated by "
-        "the oracle on every case, not a theorem; witnessed by `decide` on the unit square only",
         "swap: coordinates/area — FALSE today (D9): C15_D9_witness is the negation on unit_triangles(1); C15_swap_area_partial states what "
-        "does hold (the specified retriangulation conserves the region's area when no coordinate moves)",
-        "collapse, well-formedness: C15_collapse_preserves_WF is proved for the kernel whose sew sites carry a non-null assertion "
-        "(collapseEdgeA; C15_collapseA_refines: when it succeeds collapse_edge returns the same value and map) and up to the hypothesis "
-        "`every newly flagged dart is free in the result`; that a successful collapse_edge never sews a null dart and only flags free darts "
-        "needs the symbolic execution with frame conditions on ~12 named darts — oracle only (`wf` after every call)",
+        "does hold; the TOPOLOGY of the swap is a theorem on arbitrary WF maps (C15_swap_topology)",
+        "collapse, well-formedness: UNCONDITIONAL for collapse_edge itself in the midpoint variant (no VertexAnchor storage) on interior "
+        "configurations (C15_collapse_midpoint_interior: no null dart sewn, flagged darts free, six darts flagged, neighbours re-glued, "
+        "frame); for the end-point (anchor-driven) variant and for boundary configurations only C15_collapse_preserves_WF (asserted "
+        "kernel, hypothesis `newly flagged darts are free`) + oracle `wf` after every call",
         "collapse: target position — FALSE today for boundary end points (D15d, C15_D15d_witness); triangle-mesh result — FALSE today for "
         "corner triangles collapsed towards an end point (D15e, C15_D15e_witness); one vertex left — FALSE for interior edges between two "
-        "boundary vertices (D15f, replayed by the check, no `decide` witness)",
-        "anchors after cut / collapse (kept or lawfully merged): oracle only, except the second half of an outer cut (C15_cutOuter_second_half_anchored, every map; former D15b, /repo 27a7433); FALSE today in the case D15a (witness by `decide`)",
-        "cut: that the new vertex reads the midpoint at its identifier in the FINAL map of an arbitrary mesh (the write goes to vertex_id(nd1) at the time of the write: C15_cut_midpoint_under_vertex_id; that no later sew moves it needs the orbit calculus of C03): oracle on every case with natural and permuted spare darts, `decide` for all six numberings on the unit square (former D15c, /repo aac3ec9)",
-        "WF theorems (a) assume the faces at the edge are closed at the edge darts (beta0, beta1 non-null) and, for the cuts, free in-use "
-        "spare darts: on an open face cut_outer_edge / cut_inner_edge 1-sew the null dart (beta0(null) is written) — outside `triangle mesh`",
+        "boundary vertices (D15f, replayed by the check, no `decide` witness); flat triangle accepted (D15g, C15_D15g_witness)",
+        "anchors after cut / collapse (kept or lawfully merged): oracle only, except the second half of an outer cut "
+        "(C15_cutOuter_second_half_anchored, every map; former D15b, /repo 27a7433); FALSE today in the case D15a (witness by `decide`)",
+        "cut: the midpoint at the new vertex's identifier in the FINAL map is a theorem for cut_outer_edge on arbitrary WF maps, any spare "
+        "numbering (C15_cut_midpoint_in_final_map; former D15c, /repo aac3ec9); for cut_inner_edge only the write step "
+        "(C15_cut_midpoint_under_vertex_id), `decide` on four numberings and the oracle",
+        "the beta-level theorems assume the darts around the edge pairwise distinct (genuine, different triangles; spare darts distinct "
+        "from them) and closed faces; the cuts additionally that the face IS a triangle (the cut kernels do not test it)",
     ],
 }
 
